@@ -120,9 +120,8 @@ class Opinion(CompartmentedModel):
         """
         super().build(params)
 
-        pAffected = params[self.P_AFFECTED]
-        pAffect = params[self.P_AFFECT]
-        pStifle = params[self.P_STIFLE]
+        [pAffected, pAffect, pStifle] = self.getParameters(params,
+                                                          [self.P_AFFECTED, self.P_AFFECT, self.P_STIFLE])
 
         self.addCompartment(self.IGNORANT, 1 - float(pAffected))
         self.addCompartment(self.SPREADER, pAffected)
